@@ -8,5 +8,4 @@ def run(ctx):
                         "CBC gives no integrity: for CBC tampering only 'no panic' and magic rejection are verdicts; for GCM every one-byte change must be rejected"]
 
 def replay(ctx, rp):
-    vlib.log("replay: the file holds the concrete input; re-run ./check C09")
-    return 2
+    return vlib.replay_any(ctx, rp)
